@@ -60,11 +60,11 @@ inline void register_part2() {
   C13_ELLS(ThirdEccentricitySqToFlattening); C13_ELLS(FlatteningToThirdEccentricitySq);
 #undef C13_ELLS
   // ---------------- AuxLatitude / AuxAngle
-  reg("AuxLatitude::Convert(real)", {AUXI, AUXI, LAT}, "r", false, [](A a, O o) { o.r[0] = W().aux[g_e].Convert((int)a[0], (int)a[1], a[2], false); });
-  reg("AuxLatitude::Convert(real,exact)", {AUXI, AUXI, LAT}, "r", false, [](A a, O o) { o.r[0] = W().aux[g_e].Convert((int)a[0], (int)a[1], a[2], true); });
-  reg("AuxLatitude::Convert(AuxAngle)", {AUXI, AUXI, GEN, POS}, "rr", false, [](A a, O o) { AuxAngle r = W().aux[g_e].Convert((int)a[0], (int)a[1], AuxAngle(a[2], a[3]), false); o.r[0] = r.y(); o.r[1] = r.x(); });
-  reg("AuxLatitude::ToAuxiliary", {AUXI, GEN, POS}, "rrr", false, [](A a, O o) { real d; AuxAngle r = W().aux[g_e].ToAuxiliary((int)a[0], AuxAngle(a[1], a[2]), &d); o.r[0] = r.y(); o.r[1] = r.x(); o.r[2] = d; });
-  reg("AuxLatitude::FromAuxiliary", {AUXI, GEN, POS}, "rr", false, [](A a, O o) { AuxAngle r = W().aux[g_e].FromAuxiliary((int)a[0], AuxAngle(a[1], a[2])); o.r[0] = r.y(); o.r[1] = r.x(); });
+  reg("AuxLatitude::Convert(real)", {AUXI, AUXI, LAT}, "r", false, [](A a, O o) { o.r[0] = W().aux[g_e].Convert(I(a[0]), I(a[1]), a[2], false); });
+  reg("AuxLatitude::Convert(real,exact)", {AUXI, AUXI, LAT}, "r", false, [](A a, O o) { o.r[0] = W().aux[g_e].Convert(I(a[0]), I(a[1]), a[2], true); });
+  reg("AuxLatitude::Convert(AuxAngle)", {AUXI, AUXI, GEN, POS}, "rr", false, [](A a, O o) { AuxAngle r = W().aux[g_e].Convert(I(a[0]), I(a[1]), AuxAngle(a[2], a[3]), false); o.r[0] = r.tan(); o.r[1] = r.degrees(); });
+  reg("AuxLatitude::ToAuxiliary", {AUXI, GEN, POS}, "rrr", false, [](A a, O o) { real d; AuxAngle r = W().aux[g_e].ToAuxiliary(I(a[0]), AuxAngle(a[1], a[2]), &d); o.r[0] = r.tan(); o.r[1] = r.degrees(); o.r[2] = d; });
+  reg("AuxLatitude::FromAuxiliary", {AUXI, GEN, POS}, "rr", false, [](A a, O o) { AuxAngle r = W().aux[g_e].FromAuxiliary(I(a[0]), AuxAngle(a[1], a[2])); o.r[0] = r.tan(); o.r[1] = r.degrees(); });
   reg("AuxLatitude::radii", {}, "rrrr", false, [](A, O o) { o.r[0] = W().aux[g_e].RectifyingRadius(false); o.r[1] = W().aux[g_e].RectifyingRadius(true); o.r[2] = W().aux[g_e].AuthalicRadiusSquared(false); o.r[3] = W().aux[g_e].AuthalicRadiusSquared(true); });
   reg("AuxLatitude::Clenshaw", {UNIT, UNIT, UNIT, UNIT}, "rr", false, [](A a, O o) { real c[3] = {a[2], a[3], 0.001}; o.r[0] = AuxLatitude::Clenshaw(true, a[0], a[1], c, 3); o.r[1] = AuxLatitude::Clenshaw(false, a[0], a[1], c, 3); });
   reg("AuxAngle::accessors", {GEN, GEN}, "rrrrrrr", false, [](A a, O o) { AuxAngle z(a[0], a[1]); o.r[0] = z.degrees(); o.r[1] = z.radians(); o.r[2] = z.lam(); o.r[3] = z.lamd(); o.r[4] = z.tan(); AuxAngle n = z.normalized(); o.r[5] = n.y(); o.r[6] = n.x(); });
@@ -81,7 +81,7 @@ inline void register_part2() {
   reg("EllipticFunction::deltaEinv", {UNIT, UNIT}, "r", false, [](A a, O o) { o.r[0] = W().ef[g_e].deltaEinv(a[0], a[1]); });
   reg("EllipticFunction::Delta", {UNIT, UNIT}, "r", false, [](A a, O o) { o.r[0] = W().ef[g_e].Delta(a[0], a[1]); });
   reg("EllipticFunction::sncndn", {GEN}, "rrrr", false, [](A a, O o) { W().ef[g_e].sncndn(a[0], o.r[0], o.r[1], o.r[2]); o.r[3] = W().ef[g_e].am(a[0], o.r[0], o.r[1], o.r[2]); });
-  reg("EllipticFunction::complete(k2,alpha2)", {K2, K2}, "rrrrrrrrrr", false, [](A a, O o) { EllipticFunction e(a[0], a[1]); o.r[0] = e.K(); o.r[1] = e.E(); o.r[2] = e.D(); o.r[3] = e.KE(); o.r[4] = e.Pi(); o.r[5] = e.G(); o.r[6] = e.H(); o.r[7] = e.k2(); o.r[8] = e.kp2(); o.r[9] = e.alphap2(); });
+  reg("EllipticFunction::complete(k2,alpha2)", {K2, K2}, "rrrrrrrrrr", true, [](A a, O o) { EllipticFunction e(a[0], a[1]); o.r[0] = e.K(); o.r[1] = e.E(); o.r[2] = e.D(); o.r[3] = e.KE(); o.r[4] = e.Pi(); o.r[5] = e.G(); o.r[6] = e.H(); o.r[7] = e.k2(); o.r[8] = e.kp2(); o.r[9] = e.alphap2(); });
   reg("EllipticFunction::RF3", {POS, POS, POS}, "r", false, [](A a, O o) { o.r[0] = EllipticFunction::RF(a[0], a[1], a[2]); });
   reg("EllipticFunction::RF2", {POS, POS}, "r", false, [](A a, O o) { o.r[0] = EllipticFunction::RF(a[0], a[1]); });
   reg("EllipticFunction::RC", {POS, POS}, "r", false, [](A a, O o) { o.r[0] = EllipticFunction::RC(a[0], a[1]); });
@@ -95,7 +95,7 @@ inline void register_part2() {
   reg("NormalGravity::U", {CART, CART, CART}, "rrrr", false, [](A a, O o) { o.r[0] = W().ng[g_e].U(a[0], a[1], a[2], o.r[1], o.r[2], o.r[3]); });
   reg("NormalGravity::V0", {CART, CART, CART}, "rrrr", false, [](A a, O o) { o.r[0] = W().ng[g_e].V0(a[0], a[1], a[2], o.r[1], o.r[2], o.r[3]); });
   reg("NormalGravity::Phi", {CART, CART}, "rrr", false, [](A a, O o) { o.r[0] = W().ng[g_e].Phi(a[0], a[1], o.r[1], o.r[2]); });
-  reg("NormalGravity::inspectors", {DEG}, "rrrrrrrrr", false, [](A a, O o) { const NormalGravity& n = W().ng[g_e]; o.r[0] = n.DynamicalFormFactor((int)a[0]); o.r[1] = n.EquatorialGravity(); o.r[2] = n.PolarGravity(); o.r[3] = n.GravityFlattening();
+  reg("NormalGravity::inspectors", {DEG}, "rrrrrrrrr", false, [](A a, O o) { const NormalGravity& n = W().ng[g_e]; o.r[0] = n.DynamicalFormFactor(I(a[0])); o.r[1] = n.EquatorialGravity(); o.r[2] = n.PolarGravity(); o.r[3] = n.GravityFlattening();
     o.r[4] = n.SurfacePotential(); o.r[5] = n.MassConstant(); o.r[6] = n.AngularVelocity(); o.r[7] = n.Flattening(); o.r[8] = n.EquatorialRadius(); });
   reg("NormalGravity::J2ToFlattening", {CART, POS, UNIT, UNIT}, "r", false, [](A a, O o) { o.r[0] = NormalGravity::J2ToFlattening(a[0], 3.986e14 * a[1], 7.29e-5 * a[2], 1.08e-3 * (1 + a[3])); });
   reg("NormalGravity::FlatteningToJ2", {CART, POS, UNIT, FLAT}, "r", false, [](A a, O o) { o.r[0] = NormalGravity::FlatteningToJ2(a[0], 3.986e14 * a[1], 7.29e-5 * a[2], a[3]); });
@@ -104,7 +104,7 @@ inline void register_part2() {
   reg("Intersect::Segment", {LAT, LON, LAT, LON, LAT, LON, LAT, LON}, "rrii", false, [](A a, O o) { Intersect::Point p = W().xs[g_e].Segment(a[0], a[1], a[2], a[3], a[4], a[5], a[6], a[7], o.i[0], &o.i[1]); o.r[0] = p.first; o.r[1] = p.second; });
   reg("Intersect::Next", {LAT, LON, AZI, AZI}, "rri", false, [](A a, O o) { Intersect::Point p = W().xs[g_e].Next(a[0], a[1], a[2], a[3], &o.i[0]); o.r[0] = p.first; o.r[1] = p.second; });
   reg("Intersect::All", {LAT, LON, AZI, LAT, LON, AZI}, "rri", false, [](A a, O o) { std::vector<int> c; std::vector<Intersect::Point> v = W().xs[g_e].All(a[0], a[1], a[2], a[3], a[4], a[5], 2.5e7, c);
-    o.i[0] = (int)v.size(); o.r[0] = v.empty() ? 0 : v[0].first; o.r[1] = v.empty() ? 0 : v[0].second; });
+    o.i[0] = (int)v.size(); o.r[0] = v.empty() ? Math::NaN() : v[0].first; o.r[1] = v.empty() ? Math::NaN() : v[0].second; });
   reg("Intersect::All(maxdist)", {DIST}, "i", false, [](A a, O o) { std::vector<int> c; std::vector<Intersect::Point> v = W().xs[g_e].All(10, 20, 30, 11, 21, 100, std::fabs(a[0]), c); o.i[0] = (int)v.size(); });
   // ---------------- PolygonArea (history of 3 fixed points + the variable ones)
   reg("PolygonArea::AddPoint+Compute", {LAT, LON}, "rri", false, [](A a, O o) { PolygonArea p(W().g[g_e]); p.AddPoint(10, 10); p.AddPoint(a[0], a[1]); p.AddPoint(-20, 80); o.i[0] = (int)p.Compute(false, true, o.r[0], o.r[1]); });
